@@ -372,6 +372,141 @@ def drop_hosts(toks, free):
     return out
 
 
+# ------------------------------------------------------------------ NodeHost record: which shards a NodeHost "hosts" (placement eligibility input)
+def mon_hosts_c05(ops, obs, eng):
+    """nodeHostSpec.Shards is what the placement filter (basicFilter) reads.  After every event it must be exactly:
+    the shard list of the NodeHost's own LAST report, plus every shard whose view has a member at that address as of any
+    report processed since (syncShardInfo runs on every report).  A set that never shrinks (or forgets view members) makes
+    a live NodeHost ineligible (or eligible) for ever."""
+    out = []
+    own = {}          # addr -> set of shard ids in its last report
+    extra = {}        # addr -> shards added through the view since its last report
+    for oi, op in enumerate(ops):
+        r = obs.get(oi)
+        if r is None:
+            continue
+        if op[0] in CMD and panicked(r):
+            break
+        if op[0] == "R":
+            own[op[1]["addr"]] = set(op[1]["shard_ids"])
+            extra[op[1]["addr"]] = set()
+            own["_dirty"] = True
+        elif op[0] == "LC" and not panicked(r):
+            c = ctx_struct(r)
+            if c is None:
+                continue
+            if own.pop("_dirty", False):
+                for a in list(extra):
+                    for sh, sv in c["view"].items():
+                        if any(n["addr"] == a for n in sv["reps"].values()):
+                            extra[a].add(sh)
+            for a, h in c["hosts"].items():
+                if a not in own:
+                    continue
+                lo = own[a] | {sh for sh, sv in c["view"].items() if any(n["addr"] == a for n in sv["reps"].values())}
+                hi = own[a] | extra.get(a, set())
+                got = set(h["shards"])
+                if not (lo <= got <= hi | lo):
+                    out.append((oi, "NodeHost %d is recorded as hosting shards %s; its last report lists %s and the view has members of %s at that address"
+                                % (a, sorted(got), sorted(own[a]), sorted(lo - own[a]))))
+        if out:
+            break
+    return out
+
+
+# ------------------------------------------------------------------ placement / restore never use a NodeHost silent for longer than the timeout
+def placement_part(ck):
+    """launch planning (real scheduler.launch, executor of C08) and maintenance rounds (real Drummer.maintainShards, sched engine of
+    C02/C12): no request of any plan / batch places or restores a replica on a NodeHost whose last report is older than the timeout."""
+    import c08, schedengine as se
+    binp = ck.go_test_bin("", ["root/zz_verif_launch_test.go"], name="root_launch")
+    if binp is None:
+        return
+    s = ck.scratch()
+
+    def run_go(cases, tag):
+        fi, fo = os.path.join(s, "c05in-%s.txt" % tag), os.path.join(s, "c05out-%s.txt" % tag)
+        with open(fi, "w") as f:
+            for c in cases:
+                f.write(c08.go_line(c) + "\n")
+        rc, out = ck.run_bin(binp, "TestVerifLaunch", {"VERIF_IN": fi, "VERIF_OUT": fo}, timeout=900)
+        if rc != 0 or not os.path.exists(fo):
+            ck.violation("launch executor failed to run", {"kind": "executor", "rc": rc, "log_tail": out[-3000:]}, found_input=False)
+            return None, None
+        lines = open(fo).read().splitlines()
+        return json.loads(lines[0])["ttl"], [json.loads(l) for l in lines[1:]]
+    ttl, _ = run_go([], "probe")
+    if ttl is None:
+        return
+    quick = ck.tier == "quick"
+    rng = ck.rng
+    cases = c08.gen_random(ck, ttl, 2500 if quick else 60000)
+    # directed: exactly as many known NodeHosts as members (and +1), one of them silent for ttl .. 5 ttl, one / several regions
+    for _ in range(400 if quick else 8000):
+        m = rng.choice([1, 2, 3, 3, 5])
+        nh = m + rng.choice([0, 0, 1])
+        tick = rng.choice([1000, 5000, 70, 65])
+        nreg = rng.choice([1, 1, 2])
+        hosts = []
+        for a in range(1, nh + 1):
+            gap = rng.choice([0, 0, 5, ttl - 5, ttl - 1])
+            hosts.append((a, 1 + (a % nreg), max(0, tick - gap), []))
+        dead = rng.randrange(nh)
+        a, r, _t, ss = hosts[dead]
+        hosts[dead] = (a, r, max(0, tick - rng.choice([ttl, ttl + 1, ttl + 5, 2 * ttl, 5 * ttl])), ss)
+        rng.shuffle(hosts)
+        if nreg == 1:
+            regions = ([1], [m])
+        else:
+            k = rng.randint(0, m)
+            regions = ([1, 2], [k, m - k])
+        c = dict(tick=tick, hosts=hosts, shards=[(1, 1, list(range(1, m + 1)))], regions=regions, origin="c05:exact-fleet")
+        c08.add_draws(c, rng)
+        cases.append(c)
+    _, res = run_go(cases, "main")
+    if res is None:
+        return
+    nbad = 0
+    plans = 0
+    for c, o in zip(cases, res):
+        plans += o["o"] == "plan"
+        bad = [b for b in c08.monitors(c, ttl, o, c.get("ramped", False)) if b[0] == "no_crash"]
+        if o["o"] == "plan":
+            ht = {c08.s_addr(a): t for (a, r, t, ss) in c["hosts"]}
+            for q in o["reqs"]:
+                t = ht.get(q["raft"])
+                # the property: silent for LONGER than the timeout (the point gap = ttl is left free); a host tick in the future is not "silent"
+                if t is not None and c["tick"] >= t and c["tick"] - t > ttl:
+                    bad.append(("c05_placement", "shard %d member %d placed on %s whose last report (tick %d) is %d > ttl %d old at tick %d" % (
+                        q["sid"], q["inst"], q["raft"], t, c["tick"] - t, ttl, c["tick"])))
+        ck.count_case("launch:" + c08.go_line(c), nontrivial=bool(c["hosts"]) and bool(c["shards"]))
+        if bad and nbad < 3:
+            nbad += 1
+            ck.violation("placement on a NodeHost silent for longer than the timeout: %s" % bad[0][1], c08.replay_obj(c, ttl, o, "monitor:c05_placement"))
+    ck.cov["placement_launch_cases"] = {"cases": len(cases), "plans": plans}
+    # maintenance rounds: ADD targets and restore targets
+    eng = se.Engine(ck)
+    if not eng.build():
+        return
+    ctxs = [se.gen_random_ctx(rng, eng.ttl, eng.step) for _ in range(1200 if quick else 30000)]
+    one, _full = se.gen_one_shard(ck, eng.ttl, eng.step, 4, 1500 if quick else 40000)
+    ctxs += one
+    obs = eng.run_go(ctxs)
+    if obs is None:
+        return
+    nb = 0
+    for c, o in zip(ctxs, obs):
+        ck.count_case("sched:" + se.ctx_line(c), nontrivial=(o[0] == "B" and bool(o[1])))
+        if o[0] != "B":
+            continue
+        v = se.View(c, eng.ttl)
+        bad = [b for b in se.mon_c02(v, o[1]) if "silent for" in b[1]] + [b for b in se.mon_c12(v, o[1], set())[0] if "silent for" in b[1]]
+        if bad and nb < 3:
+            nb += 1
+            ck.violation("%s: %s (context %s)" % (bad[0][0], bad[0][1], c.get("tag")), dict(se.replay_of(c, o, eng.ttl, eng.step), kind="monitor:c05_placement"))
+    ck.cov["placement_sched_contexts"] = len(ctxs)
+
+
 def run(ck):
     ck.cov["rule"] = ("db engine: PRNG view traces (profile of C04: 2..6 hosts, 1..3 shards, evolving memberships, stale/pending/incomplete entries) "
                       "and directed timelines (one shard of 1..6 members incl. even sizes, members that never report, hosts that stop and resume, "
@@ -380,7 +515,9 @@ def run(ck):
                       "hand-built contexts with each stored-time pattern {0,1,now-ttl-step,now-ttl-1,now-ttl,now-ttl+1,now-ttl+step,now-1,now} x "
                       "first-seen {0,>0} and every (members 1..6, healthy, failed, waiting) count with the healthy members exactly on the timeout. "
                       "Non-trivial = trace with a tick run of exactly ttl/step-1, ttl/step or ttl/step+1 ticks / context with a never-reported member "
-                      "or a member whose report age is ttl-step, ttl or ttl+step; distinct by md5.")
+                      "or a member whose report age is ttl-step, ttl or ttl+step; distinct by md5. placement part: real scheduler.launch on random and exact-size fleets "
+                      "with one NodeHost silent for ttl..5 ttl, real Drummer.maintainShards on random / one-shard contexts: no plan or batch places or "
+                      "restores a replica on a NodeHost silent for longer than the timeout; NodeHost records: hosted-shards set = own last report + view members.")
     import time
     tm = [time.time()]
     ph = ck.cov.setdefault("phase_seconds", {})
@@ -406,7 +543,7 @@ def run(ck):
     traces = traces[:ncorp] + [dbgen.with_lag(ck.rng, dbgen.with_forks(ck.rng, t, 2, 0.3), 0.2) for t in traces[ncorp:]]   # classes on restored / caught-up replicas
     if not ok:
         return
-    results, _ = dbprops.run_db_property(ck, eng, traces, [mon_c05, mon_view_c05],
+    results, _ = dbprops.run_db_property(ck, eng, traces, [mon_c05, mon_view_c05, mon_hosts_c05],
                                          with_replicas=True, nontrivial=nontrivial)
     ck.sample({"trace": dbengine.trace_to_json(traces[-1][:8])})
     lap("db_engine_impl_monitors_model")
@@ -433,3 +570,6 @@ def run(ck):
         ctxs.append((js, {"hand_built_context": True}))
     run_classes(ck, eng.binp, ctxs, eng.params[0])
     lap("classes_engine")
+    if not ck.violations:
+        placement_part(ck)
+        lap("placement_part")
